@@ -1000,6 +1000,26 @@ def run_plot(case):
             ret = plot.plotLogPassLIS(fr, lp, EngVal.EngVal(xs[0], b'FEET'), EngVal.EngVal(xs[-1], b'FEET'), film, fout,
                                       frameStep=1, title='C19')
             outs = [fout] if os.path.exists(fout) else []
+            if case.get('second'):
+                # a caller that asked the plot's PRES configuration which curves an output feeds and then pruned the lists it was
+                # given (for a legend of its own): the next plot is as complete as the first
+                pc = getattr(plot, '_presCfg', None)
+                try:
+                    for outp in list(pc.outpChIDs(film)):
+                        got_ids = pc.outpCurveIDs(film, outp)
+                        if isinstance(got_ids, list):
+                            del got_ids[:]
+                except Exception:  # noqa
+                    pass
+                fout3 = os.path.join(d, 'plot_again.svg')
+                plot.plotLogPassLIS(fr, lp, EngVal.EngVal(xs[0], b'FEET'), EngVal.EngVal(xs[-1], b'FEET'), film, fout3, frameStep=1, title='C19')
+
+                def _lines(path):
+                    return sorted((len(pts), str(name)) for _a, pts, name in parse_svg(path)[2]) if os.path.exists(path) else None
+                if outs and _lines(fout3) != _lines(fout):
+                    bad.append(({'kind': 'plot_changed_by_pruning_a_list_the_configuration_handed_out', 'input': 'LIS'},
+                                '%s: the same interval plotted again after the caller emptied the lists returned by outpCurveIDs(): curves %r, the first time %r'
+                                % (desc, _lines(fout3), _lines(fout))))
             if case.get('second') and case['n'] >= 8:
                 # the same Plot and LogPass objects asked for a part of the pass (scrolling): judged like any plot
                 fout2 = os.path.join(d, 'plot_second.svg')
